@@ -142,20 +142,22 @@ func memberDesc(i int) ociregistry.Descriptor {
 }
 
 type trackedReader struct {
-	desc   ociregistry.Descriptor
-	data   *bytes.Reader
-	closes atomic.Int32
+	desc     ociregistry.Descriptor
+	data     *bytes.Reader
+	closes   atomic.Int32
+	closeErr error // what Close reports (a member's reader may fail to close cleanly)
 }
 
 func (r *trackedReader) Read(p []byte) (int, error)         { return r.data.Read(p) }
-func (r *trackedReader) Close() error                       { r.closes.Add(1); return nil }
+func (r *trackedReader) Close() error                       { r.closes.Add(1); return r.closeErr }
 func (r *trackedReader) Descriptor() ociregistry.Descriptor { return r.desc }
 
 type member struct {
-	idx     int
-	ok      bool
-	ctxwait bool
-	spin    int
+	idx      int
+	ok       bool
+	ctxwait  bool
+	spin     int
+	closeErr error // error its readers report from Close
 
 	gate     chan struct{} // closed by the harness: the answer may be given
 	abort    chan struct{} // closed at the very end of the cell, whatever happened
@@ -209,7 +211,7 @@ func (m *member) serve(ctx context.Context) (*trackedReader, error) {
 	}
 	var rd *trackedReader
 	if m.ok {
-		rd = &trackedReader{desc: memberDesc(m.idx), data: bytes.NewReader(memberContent(m.idx))}
+		rd = &trackedReader{desc: memberDesc(m.idx), data: bytes.NewReader(memberContent(m.idx)), closeErr: m.closeErr}
 	}
 	m.mu.Lock()
 	m.rd = rd
@@ -997,6 +999,12 @@ func main() {
 			spins := []int{0, 0, 1, 3, 10}
 			s.m[s.F] = newMember(s.F, c.ok[s.F], c.style == stBoth, spins[rng.IntN(len(spins))])
 			s.m[s.S] = newMember(s.S, c.ok[s.S], c.style != stPrompt, spins[rng.IntN(len(spins))])
+			if rep%3 == 2 {
+				// readers whose Close reports an error: everything still has to be released
+				s.m[0].closeErr = errors.New("member 0: connection reset while closing")
+				s.m[1].closeErr = errors.New("member 1: connection reset while closing")
+				run.Count("cases_with_failing_reader_close", 1)
+			}
 			s.preCancel = (c.cancel == cBefore || c.style == stBoth) && rep%2 == 1
 			s.loose = rep%5 == 4 && c.style != stBoth
 			s.flip = rng.IntN(2) == 0
